@@ -66,7 +66,10 @@ func genInlineEnum(r *vh.Rand, field string, k int) (EnumEnv, bool) {
 			e.UnspecDesc = "nothing"
 		}
 		if r.Chance(10) {
-			e.Unspecified = "X_UNSPECIFIED" // outside the fragment (the reader derives the prefix from it)
+			// since /repo a65e1f2 an ordinary first option
+			e.Options = append([]string{"X_UNSPECIFIED"}, e.Options...)
+			e.OptDescs = append([]string{e.UnspecDesc}, e.OptDescs...)
+			e.Unspecified, e.UnspecDesc = "", ""
 		}
 	}
 	if r.Chance(40) {
@@ -224,7 +227,7 @@ func runInlineEnums(r *vh.Rand, cfg *vh.Config, res *vh.Result, cf *vh.CasesFile
 			names = append(names, name)
 			if i > 0 && r.Chance(35) {
 				gd := genProp04(r, name, top)
-				for gd.Class == "compile-error" || readerFails(gd.P) || gd.P.T.Kind == TEnum {
+				for refused(gd.Class) || readerFails(gd.P) || gd.P.T.Kind == TEnum {
 					gd = genProp04(r, name, top)
 				}
 				plain = append(plain, gd.P)
@@ -235,7 +238,7 @@ func runInlineEnums(r *vh.Rand, cfg *vh.Config, res *vh.Result, cf *vh.CasesFile
 			var gd genDecl
 			for {
 				gd = genProp04(r, name, e)
-				if gd.P.T.Kind == TEnum && gd.Class != "compile-error" {
+				if gd.P.T.Kind == TEnum && !refused(gd.Class) {
 					break
 				}
 			}
